@@ -50,6 +50,24 @@ def scratch_root() -> str:
     return _scratch
 
 
+def die_with_parent() -> None:
+    """A worker must never outlive the check: an orphan that keeps the inherited stdout pipe open makes whoever captures the
+    output of the check wait forever."""
+    try:
+        import ctypes, signal
+        ctypes.CDLL(None, use_errno=True).prctl(1, signal.SIGKILL)      # PR_SET_PDEATHSIG
+        if os.getppid() == 1:
+            os._exit(1)
+    except Exception:
+        pass
+
+
+def _worker_init(init, initargs) -> None:
+    die_with_parent()
+    if init:
+        init(*initargs)
+
+
 def pmap(fn: T.Callable, items: T.Iterable, jobs: int = 0, chunksize: int = 1, init=None, initargs=()) -> T.Iterator:
     """Ordered parallel map over forked workers (workers inherit imported mesonbuild from REPO)."""
     jobs = jobs or NCPU
@@ -61,7 +79,7 @@ def pmap(fn: T.Callable, items: T.Iterable, jobs: int = 0, chunksize: int = 1, i
             yield fn(it)
         return
     ctx = mp.get_context('fork')
-    with ctx.Pool(min(jobs, len(items)), initializer=init, initargs=initargs) as pool:
+    with ctx.Pool(min(jobs, len(items)), initializer=_worker_init, initargs=(init, initargs)) as pool:
         for r in pool.imap(fn, items, chunksize):
             yield r
 
